@@ -59,7 +59,9 @@ class C10(Prop):
         # its own oracle and triage (DESIGN §0.4, "not built").  GAISIM_C10_HOOKS=1 switches it on for surveys.)
         mode = "hooks" if (rng.random() < 0.2 and os.environ.get("GAISIM_C10_HOOKS")) else "wrapper"
         return {"world": {"mode": mode, "use_simgit": True}, "sessions": ["sa", "sb", "sc"],
-                "cfg": {"n_clones": rng.choice([2, 2, 3]), "dead_remote": rng.choice([None, None, None, "backup", "zz-mirror"]), "steps": rng.randint(8, 16 if tier == "quick" else 28),
+                "cfg": {"n_clones": rng.choice([2, 2, 3]), "dead_remote": rng.choice([None, None, None, "backup", "zz-mirror"]),
+                        # the user's locale: git's own messages come out translated (git-ai's internal calls inherit it)
+                        "locale": rng.choice([None, None, None, "de", "fr"]), "steps": rng.randint(8, 16 if tier == "quick" else 28),
                         "early_clone": rng.random() < 0.6, "faults": rng.random() < 0.5,
                         "foreign": rng.randint(5, 9) if rng.random() < 0.3 else 0,
                         "conc": rng.random() < 0.4},
@@ -68,6 +70,9 @@ class C10(Prop):
     # ------------------------------------------------------------------ world
     def after_init(self, ex, cfg):
         w = ex.w
+        if cfg.get("locale"):
+            w.extra_env.update({"LC_ALL": "", "LANG": "C.UTF-8", "LANGUAGE": cfg["locale"]})
+            ex.probe("locale." + cfg["locale"])
         remote = os.path.join(w.root, "remote.git")
         os.makedirs(remote)
         w.raw_git(remote, "init", "-q", "--bare", "-b", "main")
